@@ -1,7 +1,7 @@
 (* Run/StoreHist.v — replay of store histories recorded by the Go driver
    (harness/store) on the executable model, plus the pieces the per-property
    specification monitors share. *)
-From Whawty Require Import Bytes Base64 Names Record Store.
+From Whawty Require Import Bytes Base64 Names Record Store StoreSpec.
 From WhawtyRun Require Export Common.
 Open Scope N_scope.
 
@@ -15,7 +15,8 @@ Definition hasher_eqb (a b : hasher) : bool :=
 Record tables := {
   t_fails : list hasher;                                     (* hashers whose KDF reports an error *)
   t_kdf : list (hasher * bytes * bytes * option bytes);      (* (h, salt, pw) -> digest, recomputed by the harness *)
-  t_sha : list (bytes * bytes)                               (* sha256 of the passwords longer than 64 bytes *)
+  t_sha : list (bytes * bytes);                              (* sha256 of the passwords longer than 64 bytes *)
+  t_known : amap                                             (* credentials of the records the harness planted itself *)
 }.
 
 (* a lookup miss yields a value no implementation can produce ([256] is not
